@@ -228,6 +228,11 @@ func (jenny RawTypes) generateConstructor(buffer *strings.Builder, context langu
 }
 
 func (jenny RawTypes) defaultsForStruct(context languages.Context, objectRef ast.RefType, objectType ast.Type, maybeExtraDefaults any) string {
+	return jenny.defaultsForStructRec(context, objectRef, objectType, maybeExtraDefaults, make(map[string]struct{}))
+}
+
+// expanding holds the structs being expanded: a field with a default can refer to the struct it belongs to.
+func (jenny RawTypes) defaultsForStructRec(context languages.Context, objectRef ast.RefType, objectType ast.Type, maybeExtraDefaults any, expanding map[string]struct{}) string {
 	var buffer strings.Builder
 
 	objectName := formatObjectName(objectRef.ReferredType)
@@ -235,6 +240,14 @@ func (jenny RawTypes) defaultsForStruct(context languages.Context, objectRef ast
 	if referredPkg != "" {
 		objectName = referredPkg + "." + objectName
 	}
+
+	if _, found := expanding[objectRef.String()]; found {
+		// recursive defaults have no finite expansion
+		return objectName + "{}"
+	}
+
+	expanding[objectRef.String()] = struct{}{}
+	defer delete(expanding, objectRef.String())
 
 	buffer.WriteString(objectName + "{\n")
 
@@ -296,7 +309,7 @@ func (jenny RawTypes) defaultsForStruct(context languages.Context, objectRef ast
 
 			defaultValue = jenny.maybeValueAsPointer(defaultValue, field.Type.Nullable, resolvedFieldType)
 		} else if field.Type.IsRef() && resolvedFieldType.IsStruct() && field.Type.Default != nil {
-			defaultValue = jenny.defaultsForStruct(context, *field.Type.Ref, resolvedFieldType, field.Type.Default)
+			defaultValue = jenny.defaultsForStructRec(context, *field.Type.Ref, resolvedFieldType, field.Type.Default, expanding)
 			if field.Type.Nullable {
 				defaultValue = "&" + defaultValue
 			}
